@@ -56,7 +56,7 @@ def schedule(endpoints, graph, fs, spec_hashes, status_func, submit_func):
     def _schedule(target):
         submitted_deps = []
         for dep in sorted(graph.dependencies[target], key=lambda t: t.name):
-            status = _cached_schedule(dep)
+            status = cache[dep]
             if status in SUBMITTED_STATES:
                 submitted_deps.append(dep)
 
@@ -93,10 +93,26 @@ def schedule(endpoints, graph, fs, spec_hashes, status_func, submit_func):
 
     cache = {}
 
-    def _cached_schedule(target):
-        if target not in cache:
+    def _cached_schedule(root):
+        # Post-order traversal with an explicit stack (dependencies first, in name
+        # order), so that deep workflows do not hit the recursion limit.
+        stack = [root]
+        while stack:
+            target = stack[-1]
+            if target in cache:
+                stack.pop()
+                continue
+            pending = [
+                dep
+                for dep in sorted(graph.dependencies[target], key=lambda t: t.name)
+                if dep not in cache
+            ]
+            if pending:
+                stack.extend(reversed(pending))
+                continue
             cache[target] = _schedule(target)
-        return cache[target]
+            stack.pop()
+        return cache[root]
 
     for target in sorted(endpoints, key=lambda t: t.name):
         _cached_schedule(target)
